@@ -22,6 +22,30 @@ def main():
     outs = []
     for c in doc['cases']:
         f = io.StringIO()
+        if 'files' in c:   # several files through the real CodeGenerator._generate_code of ONE generator object
+            import os
+            import pathlib
+            import shutil
+            import tempfile
+            import types
+            from nunavut.jinja import DSDLCodeGenerator
+            d = tempfile.mkdtemp(prefix='c15files-')
+            try:
+                gen = object.__new__(DSDLCodeGenerator)
+                gen._env = types.SimpleNamespace(now_utc=None)
+                gen._post_processors = [mk(p) for p in c['pps']]
+                res = []
+                for i, chunks in enumerate(c['files']):
+                    path = pathlib.Path(d) / ('f%d.txt' % i)
+                    gen._generate_code(path, None, iter(chunks), True)
+                    with open(path, 'r', encoding='utf-8', newline='') as g:
+                        res.append(g.read())
+                outs.append({'ok': res})
+            except Exception as ex:  # noqa
+                outs.append({'err': repr(ex)})
+            finally:
+                shutil.rmtree(d, ignore_errors=True)
+            continue
         if 'copy_text' in c:   # SupportGenerator._copy_header_using_line_pps on a real file (self is unused by the method)
             import os
             import tempfile
